@@ -96,18 +96,42 @@ def retType (op : BinOp) (a b : Prim) : Option Ty :=
   | .maxType => if rankOf a > rankOf b then a.ty else b.ty
   | .leftUnlessRightFloat => if (match b.ty with | some t => t.isFloat | .none => false) then b.ty else a.ty
 
+/-- `checkIntegerDivision(a, b, retType, op)` (present when `divGuard`): an integer `/` or `%` whose
+    divisor is zero, or INT_MIN / -1 at int32_ / int64_, raises instead of reaching the host division -/
+def checkIntegerDivision (a b : Prim) (t : Ty) : Outcome Unit :=
+  if t.isFloat then .ok ()
+  else
+    (toT .ulong b).bind fun z =>
+      if z.v = 0 then .err
+      else if t = .int then
+        (toT .int a).bind fun x => (toT .int b).bind fun y =>
+          if x.v = Ty.minVal .int ∧ y.v = -1 then .err else .ok ()
+      else if t = .long then
+        (toT .long a).bind fun x => (toT .long b).bind fun y =>
+          if x.v = Ty.minVal .long ∧ y.v = -1 then .err else .ok ()
+      else .ok ()
+
 /-- binary primitive:: functions: `switch(retType)` over the generated rows -/
 def binary (op : BinOp) (a b : Prim) : Outcome Prim :=
   match retType op a b with
-  | .none => .ok Prim.none
+  | .none =>
+    -- checkIntegerDivision runs before the switch: b.to<uint64_t>() of an unset primitive raises
+    if divGuard ∧ (op = .div ∨ op = .mod) ∧ b.ty.isNone then .err else .ok Prim.none
   | some t =>
+    (if divGuard ∧ (op = .div ∨ op = .mod) then checkIntegerDivision a b t else .ok ()).bind fun _ =>
     match binRow op t with
     | .compute sym lt rt =>
       (toT lt a).bind fun x =>
         -- the host's own && / || do not call b.to<T>() when x decides
         if sym = .land ∧ truth x = false then .ok (Prim.ofVal (ofBool false))
         else if sym = .lor ∧ truth x = true then .ok (Prim.ofVal (ofBool true))
-        else (toT rt b).bind fun y => ofHost (CxxSem.binop sym x y)
+        else (toT rt b).bind fun y =>
+          match CxxSem.binop sym x y with
+          | .undef .divZero =>
+            -- idiv traps for int/long operands; for narrower operand types the optimiser may use the
+            -- value range (`bool % bool` is folded to 0): undefined without a fixed effect
+            if x.ty.bits < 32 ∨ y.ty.bits < 32 then .ub else .trap
+          | r => ofHost r
     | .rawBits _ => .ub
     | .error => .err
     | .missing => .ok Prim.none
